@@ -76,7 +76,6 @@ type c18TagKey struct{}
 
 var c18env *c18Env
 
-
 func c18MethodName(shape string) string { return "M" + shape }
 
 func (e *c18Env) logOp(err error) {
@@ -324,17 +323,17 @@ func c18Setup() *c18Env {
 }
 
 type c18Case struct {
-	proto, shape   string
-	routed, rbody  bool
-	reqs           [][]byte
-	hk             string
-	acts           []c18Act
-	reply          []byte
-	code           int
-	imk            byte
-	imc            int
-	icpt, statsOn  bool
-	ns             string // name space of the service: "c18" (local handlers, default) or "c18p" (proxied)
+	proto, shape  string
+	routed, rbody bool
+	reqs          [][]byte
+	hk            string
+	acts          []c18Act
+	reply         []byte
+	code          int
+	imk           byte
+	imc           int
+	icpt, statsOn bool
+	ns            string // name space of the service: "c18" (local handlers, default) or "c18p" (proxied)
 }
 
 func c18Parse(input string) c18Case {
